@@ -371,6 +371,14 @@ class LoopMixin:
             return self.fresh_enum(v.cls, hint)
         if isinstance(v, SObj):
             return self.objmodel.fresh_obj(hint)
+        if isinstance(v, Instance) and v.cls.is_dataclass and getattr(v, 'frozen', False) is not None \
+                and all(isinstance(x, (bool, int, float, EnumVal)) or is_z3(x) for x in v.fields.values()):
+            # a small value object (Position ...): the same class with arbitrary field values
+            r = Instance(v.cls, {k: self.havoc_scalar(x, f'{hint}_{k}') for k, x in v.fields.items()})
+            r.frozen = getattr(v, 'frozen', False)
+            return r
+        if v is None:
+            raise Unsupported('havoc of a local that is None before the loop')
         raise Unsupported(f'havoc of local of type {type(v).__name__}')
 
     def assigned_names(self, node):
